@@ -7,8 +7,8 @@ Import ListNotations.
 (* the three array operands of _lincomb_impl *)
 Inductive operand := X1 | X2 | OUT.
 
-(* scalar expressions over the two coefficients:  a, b, a + b, literals *)
-Inductive sc := SA | SB | SAdd (p q : sc) | SK (k : Z).
+(* scalar expressions over the two coefficients:  a, b, a + b, -a, literals *)
+Inductive sc := SA | SB | SAdd (p q : sc) | SNeg (p : sc) | SK (k : Z).
 
 (* tests of the alias-and-scalar decision tree *)
 Inductive cond :=
